@@ -7,12 +7,17 @@
            value served at ts (`read_stable`), a commit writes exactly the prewritten value at the given commit ts,
            an optimistic prewrite is refused when a newer commit exists (`prewrite_conflict_detected`);
            the SI oracle's verdict is sound for the recorded reads (`siReads_sound`).
+           `snapshot_stable_over_all_runs`: for EVERY sequence of store commands (any interleaving of any number of
+           clients' prewrites, commits, rollbacks, status checks, resolves, GC …) in which later commits land above
+           `ts` (what rule 7 / max_ts give), GC safe points stay ≤ `ts` and the range is not destroyed, the value a
+           reader at `ts` is served for a key never changes — repeatable snapshot reads at the store, unbounded.
   partial  `rules_imply_SI` (every execution obeying the C04 rules yields an SI history) is NOT assembled as one
            theorem; the judge checks SI on every explored execution instead (siReads / wwCheck / insertCheck / begin-after-ack).
 -/
 import ClientGoVerif.Proofs.MvccStable
 import ClientGoVerif.Proofs.Perc
 import ClientGoVerif.Proofs.MvccFull
+import ClientGoVerif.Proofs.MvccTemporal
 namespace CGV.Props.C01
 open CGV CGV.Mvcc CGV.Perc
 
@@ -68,6 +73,32 @@ theorem async_commit_ts_above_served_reads (f f' : MvccFull.FStore) (r : Prewrit
 
 theorem served_read_raises_max_ts (f : MvccFull.FStore) (ts : Nat) (h : ts ≠ maxU64) : ts ≤ (f.bump ts).maxTS :=
   MvccFull.bump_covers f ts h
+
+/-- repeatable snapshot reads, for every command sequence: from any state satisfying the store invariant (every
+    reachable state does), after ANY list of commands that respect the callers' contract (`OkAll`) and, on key `k`,
+    only commit above `ts`, collect garbage at safe points ≤ `ts`, do not destroy `k`'s range and write rollback
+    markers at versions no other record occupies (`keepsReads`; timestamps are pairwise distinct), the version visible
+    at `ts` on `k` is the one that was visible before -/
+theorem snapshot_stable_over_all_runs (ts : Nat) (k : Bytes) (s : Store) (cs : List Cmd) (hs : SInv s)
+    (hok : OkAll s cs) (hg : GuardAll (fun e lab => lab.keepsReads ts e) k s cs) :
+    firstVisible (getEntry (runAll s cs).kv k).writes ts = firstVisible (getEntry s.kv k).writes ts :=
+  runAll_read_stable ts k s cs hs hok hg
+
+/-- non-vacuity: a later transaction prewriting and committing above the reader's ts, and a third being rolled back,
+    satisfy the guard on the key -/
+example : GuardAll (fun e lab => lab.keepsReads 25 e) [0x61]
+    { kv := [([0x61], { writes := [⟨.put, 10, 20, [1]⟩] })] }
+    [Cmd.prewrite { mutations := [⟨.put, [0x61], [2], .none⟩], primary := [0x61], startTS := 30, ttl := 3000 },
+     Cmd.commit [[0x61]] 30 40,
+     Cmd.rollback [[0x61]] 50] := by
+  simp only [GuardAll, Cmd.labels]
+  refine ⟨?_, ?_, ?_, trivial⟩
+  · rintro lab (rfl | rfl) <;> simp [KLabel.keepsReads]
+  · rintro lab (rfl | ⟨_, rfl⟩) <;> simp [KLabel.keepsReads]
+  · rintro lab (rfl | ⟨_, rfl | rfl⟩)
+    · simp [KLabel.keepsReads]
+    · simp only [KLabel.keepsReads]; decide
+    · simp only [KLabel.keepsReads]; decide
 
 example : firstVisible [⟨.put, 10, 20, [1]⟩, ⟨.rollback, 5, 5, []⟩] 25 = some ⟨.put, 10, 20, [1]⟩ := by decide
 
